@@ -2,7 +2,7 @@
 # runs every registered check of a tier on /repo and prints one summary line each
 TIER=${1:-quick}
 cd "$(dirname "$0")/.."; mkdir -p work
-for p in C01 C02 C03 C04 C05 C06 C07 C08 C09 C10 C11 C12 C13 C14 C15 C16 C17 C18 C19 C20; do
+for p in ${ONLY:-C01 C02 C03 C04 C05 C06 C07 C08 C09 C10 C11 C12 C13 C14 C15 C16 C17 C18 C19 C20}; do
   s=$(date +%s)
   python3 run/check.py $p --tier $TIER > work/all_$p.log 2>&1
   rc=$?
